@@ -39,7 +39,10 @@ def fidelity_crosscheck(exe, seed, n):
                 continue
             rep["plans"] += 1
             k = 0
-            while os.path.exists(os.path.join(d, "inv%d.out" % k)):
+            while os.path.exists(os.path.join(d, "inv%d.out" % k)) or os.path.exists(os.path.join(d, "inv%d.skip" % k)):
+                if os.path.exists(os.path.join(d, "inv%d.skip" % k)):
+                    k += 1
+                    continue
                 files = sorted(glob.glob(os.path.join(d, "inv%d_f*.txt" % k)), key=lambda x: int(x.rsplit("_f", 1)[1][:-4]))
                 r = subprocess.run([real] + files, stdout=subprocess.PIPE, stderr=subprocess.PIPE, env=env, timeout=60)
                 want = open(os.path.join(d, "inv%d.out" % k), "rb").read()
